@@ -70,7 +70,9 @@ var names = []string{"ann", "bob", "cy", "dee", "eve", "flo", "gus", "hal"}
 
 func genTable(r *hutil.Rng, name string) *Table {
 	t := &Table{Name: name}
-	switch r.Intn(12) {
+	switch r.Intn(14) {
+	case 12, 13:
+		t.Keys = []Col{{Name: "k1", Typ: "VARCHAR"}, {Name: "k2", Typ: "VARCHAR"}}
 	case 10: // consecutive ids no float64 can tell apart
 		t.Keys = []Col{{Name: "id", Typ: "BIGINT", Big: true}}
 	case 11: // character keys that denote the same number
@@ -453,7 +455,7 @@ func (g *genCtx) genStmt(t *Table, own func(i int) bool, explicit bool) Stmt {
 				continue
 			}
 			v := genVal(r, c)
-			if rows := g.rows[t.Name]; len(rows) > 0 && r.Chance(1, 2) {
+			if rows := g.rows[t.Name]; len(rows) > 0 && (r.Chance(1, 2) || (len(t.Keys) == 2 && t.Keys[0].Typ == "VARCHAR" && r.Chance(1, 2))) {
 				v = rows[r.Intn(len(rows))].Vals[ci] // what some (perhaps matched) row already holds: that part of the image is unchanged
 			}
 			s.Set = append(s.Set, SetItem{Col: ci, Op: "val", V: v})
